@@ -413,6 +413,9 @@ pub fn run(ctx: &Arc<Ctx>) {
     for il in (0..=300usize).step_by(ctx.tier.pick(3usize, 1)) {
         cases.push(Case::Enc { ke: ANNEX_KE.into(), id: format!("len:{}", il), msg_len: 20, r: ANNEX_R.into(), tag: "idlen-sweep".into() });
     }
+    for il in [8191usize, 8192, 9000, 65535, 65536, 70000] {
+        cases.push(Case::Enc { ke: ANNEX_KE.into(), id: format!("len:{}", il), msg_len: 20, r: ANNEX_R.into(), tag: "id-of-8191-bytes-and-more".into() });
+    }
     // all-zero and all-ones messages; a sender object that holds the master PUBLIC key only (secret field 0 / 1)
     for l in [1usize, 2, 16, 32, 33, 255] {
         for t in ["content=zero", "content=ff"] {
